@@ -16,10 +16,11 @@ import (
 )
 
 type tierSpec struct {
-	Params   map[string]int `json:"params"`
-	MaxPaths int            `json:"max_paths"`
-	MaxSteps int            `json:"max_steps"`
-	Diff     int            `json:"diff"` // number of random concrete vectors for the differential twin
+	Params        map[string]int `json:"params"`
+	MaxPaths      int            `json:"max_paths"`
+	MaxSteps      int            `json:"max_steps"`
+	PermuteSingle bool           `json:"permute_single"`
+	Diff          int            `json:"diff"` // number of random concrete vectors for the differential twin
 }
 
 type harnessSpec struct {
@@ -217,7 +218,7 @@ func cmdRun(args []string) int {
 		}
 		cfg := RunConfig{
 			Workers: *workers, Solvers: solvers, MaxPaths: ts.MaxPaths, MaxSteps: ts.MaxSteps,
-			PermuteMaps: h.PermuteMaps, Params: ts.Params, KnownActive: knownActive, Trace: *trace,
+			PermuteMaps: h.PermuteMaps, PermuteSingle: ts.PermuteSingle, Params: ts.Params, KnownActive: knownActive, Trace: *trace,
 			SampleModels: diffCount(h, ts, *tier), Seed: seed,
 		}
 		res := lr.eng.RunHarness(fn, cfg)
@@ -257,6 +258,22 @@ func cmdRun(args []string) int {
 		}
 	}
 
+	var scan *scanResult
+	if *prop == "C07" && *only == "" {
+		var serr error
+		scan, serr = scanMapRanges(lr.scratch)
+		if serr != nil {
+			fmt.Printf("INCONCLUSIVE property=C07 harness=map-range-scan reason=%v\n", serr)
+		} else {
+			fmt.Printf("map-range scan: %d sites in %d functions; uncovered=%d stale=%d\n", len(scan.Sites), len(scan.Sites)-0, len(scan.Uncovered), len(scan.Stale))
+			for _, u := range scan.Uncovered {
+				fmt.Printf("INCONCLUSIVE property=C07 harness=map-range-scan reason=uncovered map range in %s (no harness, no recorded argument)\n", u)
+			}
+			for _, u := range scan.PointerPrint {
+				fmt.Printf("INCONCLUSIVE property=C07 harness=map-range-scan reason=%%p verb (pointer value printed) at %s\n", u)
+			}
+		}
+	}
 	exit := 0
 	var printedKnown = map[string]bool{}
 	for _, rep := range reports {
@@ -291,7 +308,7 @@ func cmdRun(args []string) int {
 			fmt.Printf("INCONCLUSIVE property=%s harness=%s reason=%s\n", *prop, rep.Spec.Func, r)
 		}
 	}
-	writeEvidence(*prop, *tier, seed, reports, solvers, loadTime, time.Since(t0), known)
+	writeEvidence(*prop, *tier, seed, reports, solvers, loadTime, time.Since(t0), known, scan)
 	fmt.Printf("property %s tier %s: exit %d (%.1fs)\n", *prop, *tier, exit, time.Since(t0).Seconds())
 	return exit
 }
